@@ -363,6 +363,33 @@ def _():
     return G.emit_strings('p_lq_codec', rows, 'LatentQuantize codec (pinned shape)')
 
 
+@item('p_select')
+def _():
+    """selection dataflow (pinned shape): score expressions, argmax/argmin sites, codebook read, lookup"""
+    rows = []
+    g = find_func(VQ, 'gumbel_sample')
+    rows.append('gumbel.ind=' + ast.unparse(assigned_expr(VQ, 'gumbel_sample', 'ind')))
+    sl = [s for s in ast.walk(g) if isinstance(s, ast.Assign) and ast.unparse(s.targets[0]) == 'sampling_logits']
+    rows += ['gumbel.sampling_logits=' + ast.unparse(s.value) for s in sl]
+    for cls in ('EuclideanCodebook', 'CosineSimCodebook'):
+        f = find_func(VQ, f'{cls}.forward')
+        for tgt in ('embed', 'dist', 'quantize'):
+            for s in ast.walk(f):
+                if isinstance(s, ast.Assign) and ast.unparse(s.targets[0]) == tgt:
+                    rows.append(f'{cls}.{tgt}=' + ast.unparse(s.value))
+        rows.append(f'{cls}.select=' + ast.unparse(assigned_expr(VQ, f'{cls}.forward', '(embed_ind, embed_onehot)')))
+    rows.append('cosine.transform_input=' + ast.unparse(assigned_expr(VQ, 'CosineSimCodebook.__init__', 'self.transform_input')))
+    rows.append('euclid.transform_input=' + ast.unparse(assigned_expr(VQ, 'EuclideanCodebook.__init__', 'self.transform_input')))
+    rows.append('simvq.dist=' + ast.unparse(assigned_expr(SIMVQ, 'SimVQ.forward', 'dist')))
+    rows += sorted('simvq.indices=' + ast.unparse(n.value) for n in ast.walk(find_func(SIMVQ, 'SimVQ.forward'))
+                   if isinstance(n, ast.Assign) and ast.unparse(n.targets[0]) == 'indices')
+    rows.append('simvq.quantized=' + ast.unparse(assigned_expr(SIMVQ, 'SimVQ.forward', 'quantized', 0)))
+    rows.append('latent.index=' + ast.unparse(assigned_expr(LQ, 'LatentQuantize.quantize', 'index')))
+    rows.append('latent.quantize=' + ast.unparse(assigned_expr(LQ, 'LatentQuantize.quantize', 'quantize', 0)))
+    rows.append('latent.distance=' + ast.unparse(return_expr(LQ, 'LatentQuantize.quantize.distance')))
+    return G.emit_strings('p_select', rows, 'selection dataflow (pinned shape)')
+
+
 # =============================================================================== inventories (G4)
 for fname, cls, tag in ((VQ, 'EuclideanCodebook', 'euclid'), (VQ, 'CosineSimCodebook', 'cosine'), (VQ, 'VectorQuantize', 'vq'),
                         (FSQF, 'FSQ', 'fsq'), (LFQF, 'LFQ', 'lfq'), (SIMVQ, 'SimVQ', 'simvq'), (RPQ, 'RandomProjectionQuantizer', 'rpq'),
